@@ -50,6 +50,8 @@ var guardedFields = map[string]string{
 	"iscp.eventDispatcher.handler":           "iscp.eventDispatcher.cond.L",
 	"reconnect.Transport.transport":          "reconnect.Transport.mu",
 	"reconnect.Transport.writeResCh":         "reconnect.Transport.writeResMu",
+	"quic.Transport.sendStream":              "quic.Transport.sendMu",
+	"webtransport.Transport.sendStream":      "webtransport.Transport.sendMu",
 	"multi.Transport.currentTransportID":     "multi.Transport.mu",
 	"multi.Transport.lastReadTransportID":    "multi.Transport.lastReadTransportIDmu",
 	"multi.RoundRobinPoller.current":         "multi.RoundRobinPoller.mu",
@@ -85,6 +87,8 @@ var hbExempt = map[string]string{
 	"iscp.(Upstream).readResultLoop|iscp.Upstream.resCh":      "evaluated once when the goroutine starts (inside run, after resume wrote it); the loop then ranges over that channel value",
 	"websocket.New|websocket.Transport.writeWindowBuf":        "constructor: the transport is not yet shared",
 	"websocket.New|websocket.Transport.readWindowBuf":         "constructor: the transport is not yet shared",
+	"quic.New|quic.Transport.sendStream":                      "constructor: the transport is not yet shared",
+	"webtransport.New|webtransport.Transport.sendStream":      "constructor: the transport is not yet shared",
 	"multi.(LastUsedPoller).Get|multi.Transport.currentTransportID": "the only configuration that calls Get is polling mode with this poller; transportIDLoop then only ever receives the current id or the empty id and never writes currentTransportID, so there is no concurrent writer (race workload `multi` confirms)",
 }
 
